@@ -5,7 +5,7 @@
    describes, up to the per-connection material the property allows to differ?
    Executable definitions only (sext_eq_dec is derived by `decide equality`). *)
 From UV Require Import Base.Common Model.Wire.
-From UV Require Model.Grease.
+From UV Require Model.Grease Model.Marshal.
 From UV Require Import Model.Ext Model.ExtSpec Model.Preset.
 
 (* ---- strict parser ---- *)
@@ -327,3 +327,17 @@ Definition wf_spec (sp : spec) : bool :=
   && (sum_map static_len (sp_exts sp) <? 20000).
 
 Definition wf_parrot (p : parrot) : bool := wf_spec (p_spec p).
+
+(* ---- the (type, body) list an extension list puts on the wire, by the reference layouts ---- *)
+(* (Proofs/ExtP.read_layout: this is what ext_read emits for every wf_ext value) *)
+Definition wire_pair (e : ext) : option (N * bytes) :=
+  if ext_absent e then None else Some (ext_id e, ext_body e).
+Definition wire_of (es : list ext) : list (N * bytes) :=
+  flat_map (fun e => match wire_pair e with Some w => [w] | None => [] end) es.
+(* the padding extension after Update(..) of MarshalClientHelloNoECH: any state *)
+Definition set_pad (l : N) (w : bool) (e : ext) : ext :=
+  match e with EPadding _ _ pol => EPadding l w pol | _ => e end.
+(* the hello the codecs put on the wire: header fields of [h], extensions [es] as (type, body) pairs *)
+Definition ast_of (h : Marshal.hello_hdr) (es : list ext) : ast :=
+  {| a_vers := Marshal.h_vers h; a_random := Marshal.h_random h; a_sid := Marshal.h_sid h;
+     a_suites := Marshal.h_suites h; a_comp := Marshal.h_comp h; a_exts := wire_of es |}.
